@@ -99,7 +99,7 @@ func (w *World) queryReach() *Reach {
 }
 
 func checkC19(w *World, r *Report) {
-	r.Explanation = "Structural clause of C19: (Q-1) from Query (call graph, including go-ethereum's callbacks into the scratch StateDBWrapper) no overlay method other than tree reads is called on a live ledger, no durable-write API of tm-db/iavl/go-ethereum is reachable, no in-memory controller state is written (only the receiver of the scratch wrapper), and the scratch wrapper is built from ImmutableStateAt with the immutable account handler; (Q-2) every ledger read in a query handler is a tree read (Read / IterateReadAllItems) on the value returned by ImmutableLedgerAt(h) with h data-dependent on the request height, and vm_call's state comes from ImmutableStateAt(h) likewise; (Q-3) RigoApp.Query maps height 0 to the last committed height and its dispatch lists exactly the paths the controllers handle; (Q-4) no version of any tree is ever deleted or overwritten anywhere in the module."
+	r.Explanation = "Structural clause of C19: (Q-1) from Query (call graph, including go-ethereum's callbacks into the scratch StateDBWrapper) no overlay method other than tree reads is called on a live ledger, no durable-write API of tm-db/iavl/go-ethereum is reachable, no in-memory controller state is written (only the receiver of the scratch wrapper), and the scratch wrapper is built from ImmutableStateAt with the immutable account handler; (Q-2) every ledger read in a query handler is a tree read (Read / IterateReadAllItems) on the value returned by ImmutableLedgerAt(h) with h data-dependent on the request height, and vm_call's state comes from ImmutableStateAt(h) likewise; (Q-3) RigoApp.Query maps height 0 to the last committed height and its dispatch lists exactly the paths the controllers handle; (Q-4) no version of any tree is ever deleted or overwritten anywhere in the module. (Q-5) every historical read is served from a tree object of its own (a fresh iavl tree on the ledger's database, loaded at exactly the requested version, a load error is returned) under a fresh empty overlay — an iavl tree object remembers what was the latest version when it was opened, so it must not be shared between requests (C18 L-3)."
 	r.NotCovered = "the returned bytes; races with a running block (Query takes no application mutex); `stakes/voting_power` answers with the current governance limits (not in the property's list); tendermint's rpc core used by vm_call for the block time."
 
 	reach := w.queryReach()
@@ -112,6 +112,24 @@ func checkC19(w *World, r *Report) {
 	q2(w, r, reach, scope)
 	q3(w, r)
 	q4(w, r)
+	// Q-5: a historical read gets a tree object of its own, loaded at exactly the
+	// requested version, under a fresh overlay (C18 L-3)
+	{
+		tmp := NewReport(r.Prop, r.Tier)
+		l3(w, tmp)
+		n := 0
+		for _, o := range tmp.Obs {
+			if o.Rule == "L-3" && strings.Contains(o.Key, "ImmutableLedgerAt") {
+				o.Rule = "Q-5"
+				o.Key = "Q-5:" + strings.TrimPrefix(o.Key, "L-3:")
+				r.Obs = append(r.Obs, o)
+				n++
+			}
+		}
+		if n < 4 {
+			r.Undecided("Q-5", "ImmutableLedgerAt", "the historical-read constructor could not be analysed")
+		}
+	}
 	r.Floor("Q-1", 12, "ledger calls / scratch-wrapper writes on the query path")
 	r.Floor("Q-2", 12, "immutable-ledger reads in the query handlers")
 	r.Floor("Q-3", 4, "height default and dispatch agreement")
